@@ -1,13 +1,17 @@
 package props
 
 import (
+	"bytes"
 	"encoding/json"
 	"fmt"
+	"net/http"
+	"net/http/httptest"
 	"sort"
 	"strings"
 	"sync"
 	"time"
 
+	"github.com/gorilla/mux"
 	"github.com/trustbloc/sidetree-core-go/pkg/api/operation"
 	"github.com/trustbloc/sidetree-core-go/pkg/api/protocol"
 	"github.com/trustbloc/sidetree-core-go/pkg/api/txn"
@@ -17,6 +21,7 @@ import (
 	"github.com/trustbloc/sidetree-core-go/pkg/document"
 	"github.com/trustbloc/sidetree-core-go/pkg/observer"
 	"github.com/trustbloc/sidetree-core-go/pkg/processor"
+	restapi "github.com/trustbloc/sidetree-core-go/pkg/restapi/dochandler"
 	"github.com/trustbloc/sidetree-core-go/pkg/versions/1_0/txnprocessor"
 
 	"verif/mc/fx"
@@ -230,6 +235,41 @@ func newC20Node(cfg c20Config, pools []*fx.Pool) *c20Node {
 
 func (n *c20Node) close() { n.obs.Stop() }
 
+// restSubmit sends the request through the REST update handler (which picks the current protocol version).
+func (n *c20Node) restSubmit(req []byte) (*document.ResolutionResult, int) {
+	uh := restapi.NewUpdateHandler(n.handler, n.client, fx.Metrics)
+	rw := httptest.NewRecorder()
+	uh.Update(rw, httptest.NewRequest(http.MethodPost, "/operations", bytes.NewReader(req)))
+	if rw.Code != http.StatusOK {
+		return nil, rw.Code
+	}
+	if len(bytes.TrimSpace(rw.Body.Bytes())) == 0 || string(bytes.TrimSpace(rw.Body.Bytes())) == "null" {
+		return nil, rw.Code
+	}
+	var res document.ResolutionResult
+	if err := json.Unmarshal(rw.Body.Bytes(), &res); err != nil {
+		return nil, -1
+	}
+	return &res, rw.Code
+}
+
+// restResolve resolves through the REST resolve handler.
+func (n *c20Node) restResolve(did string, query string) (*document.ResolutionResult, int) {
+	rh := restapi.NewResolveHandler(n.handler, fx.Metrics)
+	rw := httptest.NewRecorder()
+	req := httptest.NewRequest(http.MethodGet, "/identifiers/x"+query, nil)
+	req = mux.SetURLVars(req, map[string]string{"id": did})
+	rh.Resolve(rw, req)
+	if rw.Code != http.StatusOK {
+		return nil, rw.Code
+	}
+	var res document.ResolutionResult
+	if err := json.Unmarshal(rw.Body.Bytes(), &res); err != nil {
+		return nil, -1
+	}
+	return &res, rw.Code
+}
+
 func (n *c20Node) opFor(d int, id string) *fx.PoolOp {
 	if id == "Ualias" {
 		return c20AliasOp(n.pools[d])
@@ -413,18 +453,25 @@ func c20Replay(cfg c20Config, pools []*fx.Pool, events []c20Event) (*c20Model, s
 				_ = json.Unmarshal(op.Req, &tree)
 				delete(tree, "type")
 				lf := c20NS + ":" + pools[e.D].Suffix + ":" + fx.B64(jcs.MustCanon(tree))
-				if res, err := n.handler.ResolveDocument(lf); err == nil {
+				if res, code := n.restResolve(lf, ""); code == http.StatusOK {
 					longForm[e.D] = res
 				} else {
-					return m, "long-form-resolution-failed", fmt.Sprintf("event %d: long-form DID of d%d does not resolve before anchoring: %v", i, e.D, err)
+					return m, "long-form-resolution-failed", fmt.Sprintf("event %d: long-form DID of d%d does not resolve before anchoring: HTTP %d", i, e.D, code)
 				}
 			}
-			res, err := n.handler.ProcessOperation(op.Req, cur.Protocol().GenesisTime)
+			_ = cur
+			res, code := n.restSubmit(op.Req)
 			want := m.submit(e.D, op)
-			if (err == nil) != want {
-				return m, "acceptance:" + string(op.Type), fmt.Sprintf("event %d: %s of d%d accepted=%v (err=%v), reference accepts=%v", i, op.ID, e.D, err == nil, err, want)
+			if (code == http.StatusOK) != want {
+				return m, "acceptance:" + string(op.Type), fmt.Sprintf("event %d: %s of d%d answered HTTP %d, reference accepts=%v", i, op.ID, e.D, code, want)
 			}
-			if err == nil && op.Type == operation.TypeCreate {
+			if !want && code != http.StatusBadRequest {
+				return m, "refusal-status:" + string(op.Type), fmt.Sprintf("event %d: refused %s of d%d answered HTTP %d, want 400", i, op.ID, e.D, code)
+			}
+			if code == http.StatusOK && op.Type == operation.TypeCreate {
+				if res == nil {
+					return m, "create-response-missing", fmt.Sprintf("event %d: create of d%d returned no document", i, e.D)
+				}
 				n.created[e.D] = res
 			}
 		case "tickM":
@@ -476,12 +523,15 @@ func c20Replay(cfg c20Config, pools []*fx.Pool, events []c20Event) (*c20Model, s
 	// resolution of every DID against the reference
 	for d := range cfg.Scripts {
 		did := c20NS + ":" + pools[d].Suffix
-		res, err := n.handler.ResolveDocument(did)
+		res, code := n.restResolve(did, "")
 		st, merr := m.resolve(d)
-		if (err == nil) != (merr == nil) {
-			return m, "resolvable", fmt.Sprintf("d%d resolves=%v (err=%v), reference resolves=%v; visible operations %v", d, err == nil, err, merr == nil, c20Visible(m, d))
+		if (code == http.StatusOK) != (merr == nil) {
+			return m, "resolvable", fmt.Sprintf("d%d answered HTTP %d, reference resolves=%v; visible operations %v", d, code, merr == nil, c20Visible(m, d))
 		}
-		if err != nil {
+		if code != http.StatusOK {
+			if code != http.StatusNotFound {
+				return m, "unresolvable-status", fmt.Sprintf("d%d not resolvable but answered HTTP %d, want 404", d, code)
+			}
 			continue
 		}
 		anyPublished := false
@@ -539,7 +589,7 @@ func c20Visible(m *c20Model, d int) []string {
 
 func c20(r *hx.Run) {
 	fx.Quiet()
-	r.Rule = "breadth-first search over event sequences {submit next scripted request of DID d, monitor tick, timeout tick, observe (deliver all pending ledger transactions), advance (switch to the second protocol version)} on a node assembled only from the library's real parts (DocumentHandler with default decorator -> Writer/cutter/MemQueue -> OperationHandler -> CAS -> harness ledger -> Observer -> TxnProcessor/OperationProvider -> store -> processor -> didtransformer), de-duplicated on the reference state; every transition replays the sequence on a fresh node in lock-step with the reference (acceptance rule, queue/batch model, ledger, ref/sidetree resolution, independent projection); configurations vary scripts (C U U / C U R U / C D U / C R D / C U(alias) / C U(json-patch); the two protocol versions each enable a patch action the other lacks), unpublished-operation store and one or two protocol versions. Non-trivial: states in which at least one DID resolves with an operation applied after its create."
+	r.Rule = "breadth-first search over event sequences {submit next scripted request of DID d, monitor tick, timeout tick, observe (deliver all pending ledger transactions), advance (switch to the second protocol version)} on a node assembled only from the library's real parts (REST update/resolve handlers -> DocumentHandler with default decorator -> Writer/cutter/MemQueue -> OperationHandler -> CAS -> harness ledger -> Observer -> TxnProcessor/OperationProvider -> store -> processor -> didtransformer), de-duplicated on the reference state; every transition replays the sequence on a fresh node in lock-step with the reference (acceptance rule, queue/batch model, ledger, ref/sidetree resolution, independent projection); configurations vary scripts (C U U / C U R U / C D U / C R D / C U(alias) / C U(json-patch); the two protocol versions each enable a patch action the other lacks), unpublished-operation store and one or two protocol versions. Non-trivial: states in which at least one DID resolves with an operation applied after its create."
 	configs := []c20Config{
 		{"AB|nounpub|1ver", [][]string{{"C", "U01", "U12"}, {"C", "U01", "R01", "V01"}}, false, false, 2},
 		{"CD|unpub|1ver", [][]string{{"C", "D0", "U01"}, {"C", "R01", "D1"}}, true, false, 2},
